@@ -326,3 +326,8 @@ func vLocksFree(a *Association, s *Stream) bool {
 	}
 	return free && !vMutexHeldNative(&a.ackTimer.mutex) && !vRWMutexHeldNative(&a.rtoMgr.mutex)
 }
+
+// vWriterPending reports whether the writer has been woken and has not run yet.
+func vWriterPending(a *Association) bool {
+	return !vIsShut(a) && len(a.awakeWriteLoopCh) > 0
+}
